@@ -73,7 +73,7 @@ package edge
 // One receiver per group id: an existing id gets its existing receiver (no new group state is
 // created), a new id gets exactly one NewGroup call, no other id's receiver changes.
 //@ func (*groupedConsumer).getOrCreateGroup
-//@   props C06 C05
+//@   props C06
 //@   requires gcOK(c)
 //@   modifies map(c.groups)
 //@   ensures old(has(c.groups, group.ID)) ==> result1 == nil && result0 == old(c.groups[group.ID]) && !called(NewGroup)
@@ -84,11 +84,11 @@ package edge
 
 // A point is handed to the receiver registered for its own group id, and to no other.
 //@ func (*groupedConsumer).Point
-//@   props C06 C05
+//@   props C06
 //@   requires gcOK(c) && p != nil
 //@   guardcall Point#1: has(c.groups, p.GroupInfo().ID) && r == c.groups[p.GroupInfo().ID]
 
 //@ func (*groupedConsumer).Barrier
-//@   props C06 C05
+//@   props C06
 //@   requires gcOK(c) && b != nil
 //@   guardcall Barrier#1: has(c.groups, b.GroupInfo().ID) && r == c.groups[b.GroupInfo().ID]
